@@ -80,6 +80,7 @@ var gspell = map[string][]string{
 	"at.page":       {"@page", "@Page"},
 	"at.unknown":    {"@foo", "@-x-bar", "@Custom", "@font-feature-values", "@container"},
 	// separators: whitespace-bearing run, comment only, pure whitespace
+	// (the last gS3 spellings of S are three tokens long)
 	"S": {" ", "\n", "\t", "  ", "\r\n", "\f", " /* c */", "/* c */ ", " /**/ ", "\n/* ; */\n"},
 	"C": {"/* c */", "/**/", "/*;*/", "/*}*/", "/* { */"},
 	"W": {" ", "\n", "\t", " \n ", "\r\n"},
@@ -87,6 +88,10 @@ var gspell = map[string][]string{
 	"cpblock": {"{a:b;c}", "{}", "{x{y}}"},
 	"cpparen": {"(a;b)", "[;]", "f(;)"},
 }
+
+// Run's locator of custom property values (cssp.go) looks for the value at most three tokens after the name: between a custom
+// property name and its colon only the one- and two-token spellings of S are used.
+const gS3 = 2
 
 var gmulti = map[string]bool{"S": true, "C": true, "W": true, "cpblock": true, "cpparen": true}
 
@@ -120,13 +125,16 @@ func gselfcheck() {
 func gconcretise(c *gcase, rng *rand.Rand) ([]byte, []int) {
 	var b []byte
 	cuts := make([]int, 0, len(c.Atoms)+1)
-	for _, a := range c.Atoms {
+	for i, a := range c.Atoms {
 		ss, ok := gspell[a]
 		if !ok {
 			fmt.Fprintln(os.Stderr, "cssp: unknown atom", a)
 			os.Exit(2)
 		}
 		cuts = append(cuts, len(b))
+		if a == "S" && i > 0 && c.Atoms[i-1] == "cpname" {
+			ss = ss[:len(ss)-gS3]
+		}
 		b = append(b, ss[rng.Intn(len(ss))]...)
 	}
 	cuts = append(cuts, len(b))
@@ -286,6 +294,7 @@ func GReplay(args []string) {
 	seed := fs.Int64("seed", 1, "seed")
 	variants := fs.Int("variants", 2, "spellings per case")
 	keep := fs.Int("keep", 50, "keep every n-th matching case as a trace (by hash)")
+	inVariants := fs.Int("inputvariants", 0, "write only the first n spellings of a case to -inputs (0: all)")
 	fs.Parse(args)
 	gselfcheck()
 	w := tr.NewWriter(*out)
@@ -342,7 +351,7 @@ func GReplay(args []string) {
 					continue
 				}
 				seenIn[c.Mode+string(input)] = true
-				if inw != nil && !seenIn["*"+string(input)] {
+				if inw != nil && (*inVariants == 0 || v < *inVariants) && !seenIn["*"+string(input)] {
 					seenIn["*"+string(input)] = true
 					b, _ := json.Marshal(map[string]interface{}{"input": tr.Ints(input)})
 					inbuf.Write(b)
